@@ -4,6 +4,7 @@ C05 — Parallel and Map joins are order-independent, complete and concurrency-b
 import AslModel.Join
 import Proofs.Lemmas.Join
 import Proofs.Lemmas.MapProto
+import Proofs.C01
 namespace Asl.C05
 open Asl
 
@@ -63,6 +64,29 @@ theorem map_each_item_at_most_once (n m : Nat) (cs : List (Nat × Json)) :
 theorem map_launches_only_items (n m : Nat) (cs : List (Nat × Json)) :
     ∀ i ∈ (cs.foldl (fun st c => st.complete c.1 c.2) (MapSt.init n m)).launched, i < n :=
   MapSt.launched_lt n m cs
+
+/-- The join and the reference semantics agree: if the States Language semantics gives the branch
+outputs `vs` (branch k's output at position k, C01), then feeding the engine-style join with the
+completions of those branches in **any** order — with repetitions — produces exactly `vs`. -/
+theorem fanout_output_order_independent (env : Env) (fuel : Nat) (bs : List Json) (params ctx : Json)
+    (st st' : St) (vs : List Json) (h : runBranches env fuel bs params ctx st = (.ok vs, st'))
+    (σ : List (Nat × Json)) (hσ : ∀ p ∈ σ, vs[p.1]? = some p.2)
+    (hall : ∀ i, i < vs.length → ∃ v, (i, v) ∈ σ) :
+    Join.result (Join.feed (Join.init bs.length) σ) = some vs := by
+  have hl := (C01.parallel_results_in_branch_order env fuel bs params ctx st st' vs h).1
+  rw [← hl]
+  exact join_order_independent vs σ hσ hall
+
+/-- the same for Map iterations -/
+theorem map_output_order_independent (env : Env) (fuel : Nat) (proc : Json) (sel : Option Json) (input : Json)
+    (items : List Json) (ctx : Json) (st st' : St) (vs : List Json)
+    (h : runItems env fuel proc sel input items 0 ctx st = (.ok vs, st'))
+    (σ : List (Nat × Json)) (hσ : ∀ p ∈ σ, vs[p.1]? = some p.2)
+    (hall : ∀ i, i < vs.length → ∃ v, (i, v) ∈ σ) :
+    Join.result (Join.feed (Join.init items.length) σ) = some vs := by
+  have hl := (C01.map_results_in_item_order env fuel proc sel input items 0 ctx st st' vs h).1
+  rw [← hl]
+  exact join_order_independent vs σ hσ hall
 
 /-! ### non-vacuity -/
 private def o3 : List Json := [.num 10, .num 11, .num 12]
